@@ -166,11 +166,11 @@ private:
       if(!WrapperType::allowTargetResize)
         throw std::runtime_error("Non-matching dimensions in SU_vector assignment");
       //can resize
-      if(isinit)
-        deallocate_mem();
-      dim=proxy.suv1.dim;
-      size=proxy.suv1.size;
       if(proxy.mayStealArg1()){ //if the operation is component-wise and suv1 is an rvalue
+        if(isinit)
+          deallocate_mem();
+        dim=proxy.suv1.dim;
+        size=proxy.suv1.size;
         components=proxy.suv1.components; //take suv1's backing storage
         ptr_offset=proxy.suv1.ptr_offset;
         isinit=proxy.suv1.isinit;
@@ -181,6 +181,10 @@ private:
         }
       }
       else if(proxy.mayStealArg2()){ //if the operation is component-wise and suv2 is an rvalue
+        if(isinit)
+          deallocate_mem();
+        dim=proxy.suv2.dim;
+        size=proxy.suv2.size;
         components=proxy.suv2.components; //take suv2's backing storage
         ptr_offset=proxy.suv2.ptr_offset;
         isinit=proxy.suv2.isinit;
@@ -191,7 +195,16 @@ private:
         }
       }
       else{
-        alloc_aligned(dim,size,components,ptr_offset);
+        //obtain the new storage first, so that a failed allocation leaves this vector untouched
+        double* new_components;
+        unsigned char new_offset;
+        alloc_aligned(proxy.suv1.dim,proxy.suv1.size,new_components,new_offset);
+        if(isinit)
+          deallocate_mem();
+        dim=proxy.suv1.dim;
+        size=proxy.suv1.size;
+        components=new_components;
+        ptr_offset=new_offset;
         isinit=true;
       }
     }
